@@ -263,7 +263,7 @@ def all_comps(m):
 
 Truth = namedtuple("Truth", "resolvable reason file_revisit local_units_cycle entity_cycle hidden_import "
                             "sibling_imports dangling_ref_used parse_errors twin_of_origin files_in_closure depth roots "
-                            "name_capture")
+                            "name_capture import_with_children")
 
 
 def truth(files, origin=ORIGIN):
@@ -282,6 +282,7 @@ def truth(files, origin=ORIGIN):
     hidden_import     the closure contains a dependency edge in a non-origin file that Importer::fetchUnits /
                       fetchComponent never examine (references of a local units that is not an import target; units
                       used by an encapsulated descendant of an imported component)
+    import_with_children  some imported component (in any file) has encapsulated children in its own model
     name_capture      an imported units references (through local units of its file) a name that is also a units
                       name of the importing model (flattening then links the copy to the wrong units)
     sibling_imports   some local units in the closure has two or more references that lead to imports
@@ -443,7 +444,8 @@ def truth(files, origin=ORIGIN):
         rc(origin, om, c, [], [])
     return Truth(ok, reason, st["revisit"], st["lcycle"], st["ecycle"], _hidden_import(files, origin),
                  st["sibling"], st["dangling"], st["perr"], st["twin"], tuple(sorted(st["files"])), st["depth"],
-                 tuple(roots), _name_capture(files, origin))
+                 tuple(roots), _name_capture(files, origin),
+                 any(c[2] is not None and c[4] for d in files.values() if is_model(d) for c in all_comps(d)))
 
 
 def _hidden_import(files, origin):
@@ -464,8 +466,9 @@ def _hidden_import(files, origin):
 
     # mode "T": the entity is an import target (or a top-level import of the origin): its edges are examined
     # mode "N": reached some other way: its edges are not examined by the importer
-    def vu(f, m, u, mode):
-        k = ("u", f, u[1], mode)
+    # lib: the entity lives in a library model (a file reached through an import; may be the origin's own file)
+    def vu(f, m, u, mode, lib):
+        k = ("u", f, u[1], mode, lib)
         if k in seen:
             return
         seen.add(k)
@@ -474,20 +477,20 @@ def _hidden_import(files, origin):
             if d:
                 t = find_units(d, u[3])
                 if t:
-                    vu(u[2], d, t, "T")
+                    vu(u[2], d, t, "T", True)
             return
         for r in u[2]:
             if r in STANDARD_UNITS:
                 continue
-            if mode != "T" and f != origin:
+            if mode != "T" and lib:
                 found[0] = True
             cu = find_units(m, r)
             if cu:
                 # an imported child is fetched (its import edge is examined) when its parent was examined
-                vu(f, m, cu, "T" if (cu[0] == "I" and mode == "T") else "N")
+                vu(f, m, cu, "T" if (cu[0] == "I" and mode == "T") else "N", lib)
 
-    def vc(f, m, c, mode):
-        k = ("c", f, c[1], mode)
+    def vc(f, m, c, mode, lib):
+        k = ("c", f, c[1], mode, lib)
         if k in seen:
             return
         seen.add(k)
@@ -496,32 +499,54 @@ def _hidden_import(files, origin):
             if d:
                 t = find_comp(d[3], c[2][1])
                 if t:
-                    vc(c[2][0], d, t, "T")
+                    vc(c[2][0], d, t, "T", True)
         for un in c[3]:
             if un in STANDARD_UNITS:
                 continue
-            if mode != "T" and f != origin:
+            if mode != "T" and lib:
                 found[0] = True
             cu = find_units(m, un)
             if cu:
-                vu(f, m, cu, "T" if (cu[0] == "I" and mode == "T") else "N")
+                vu(f, m, cu, "T" if (cu[0] == "I" and mode == "T") else "N", lib)
         for kk in c[4]:
             # the walk reaches every descendant and fetches the imported ones; a local descendant's units are skipped
-            vc(f, m, kk, "T" if kk[2] is not None else "N")
+            vc(f, m, kk, "T" if kk[2] is not None else "N", lib)
 
     for u in om[2]:
         if u[0] == "I":
-            vu(origin, om, u, "T")
+            vu(origin, om, u, "T", False)
     for c in all_comps(om):
         if c[2] is not None:
-            vc(origin, om, C(c[1], c[2]), "T")
+            vc(origin, om, C(c[1], c[2]), "T", False)
     return found[0]
 
 
 def _name_capture(files, origin):
-    """flattening instantiates an imported units together with the local units it references, under their own
-    names: True when such a referenced name is already taken in the importing model (or is the importing
-    name itself while the target has another name) -- the copy then refers to the wrong units"""
+    """flattening instantiates an imported units / component together with the units it needs -- the local units
+    reached from the import target, across import chains -- under their own names: True when such a name is
+    already a units name of the importing model (the copy may then refer to the wrong units; the code tries to
+    rename, not always successfully)"""
+    def needed(f, start_names, seen):
+        """names (with their file) of the units instantiated for the units names start_names of file f"""
+        out = set()
+        td = files.get(f)
+        if not is_model(td):
+            return out
+        for n in start_names:
+            if n in STANDARD_UNITS or (f, n) in seen:
+                continue
+            seen.add((f, n))
+            x = find_units(td, n)
+            if x is None:
+                continue
+            out.add(n)
+            if x[0] == "L":
+                out |= needed(f, x[2], seen)
+            else:
+                sub = needed(x[2], [x[3]], seen)
+                out |= (sub - {x[3]})          # the import target itself takes the importing name
+        return out
+
     for f, d in files.items():
         if not is_model(d):
             continue
@@ -529,22 +554,20 @@ def _name_capture(files, origin):
         for u in d[2]:
             if u[0] != "I":
                 continue
-            td = files.get(u[2])
+            got = needed(u[2], [u[3]], set()) - {u[3]}
+            if got & names:
+                return True
+        for c in all_comps(d):
+            if c[2] is None:
+                continue
+            td = files.get(c[2][0])
             if not is_model(td):
                 continue
-            t = find_units(td, u[3])
-            deps = set()
-
-            def walk(x):
-                if x is None or x[0] != "L":
-                    return
-                for r in x[2]:
-                    if r in STANDARD_UNITS or r in deps:
-                        continue
-                    deps.add(r)
-                    walk(find_units(td, r))
-            walk(t)
-            if deps & names:
+            t = find_comp(td[3], c[2][1])
+            if t is None:
+                continue
+            used = [un for k in _flatten_comps((t,)) for un in k[3]]
+            if needed(c[2][0], used, set()) & names:
                 return True
     return False
 
